@@ -186,7 +186,9 @@ class Datapath:
         if k.ofm.bits <= 16 or k.uses_lut:
             y = np.clip(y, k.act_min, k.act_max)  # (the 16-bit activation range registers do not apply to a plain 32-bit OFM)
         if k.uses_lut:
-            if k.ifm.bits == 16 and k.ofm.bits == 16:
+            if k.ofm.bits == 16 and k.ifm.bits != 16:
+                raise NotModelled("16-bit lookup table behind a non 16-bit IFM")
+            if k.ofm.bits == 16:
                 # 512 entries of 32 bit (slope << 16) + base over the whole table area; interpolation on the low 7 bits
                 raw = self.m.read_bytes(HW.SHRAM_REGION, self.hw["lut_addr"], 2048).astype(np.int64).reshape(512, 4)
                 word = raw[:, 0] | (raw[:, 1] << 8) | (raw[:, 2] << 16) | (raw[:, 3] << 24)
@@ -196,7 +198,7 @@ class Datapath:
                 idx = np.clip(256 + (y >> 7), 0, 511)
                 off = y & 0x7F
                 return np.clip(base[idx] + ((slope[idx] * off + 64) >> 7), -32768, 32767)
-            if k.ifm.bits != 8 or k.ofm.bits not in (8, 32):
+            if k.ifm.bits not in (8, 16) or k.ofm.bits not in (8, 32):
                 raise NotModelled("lookup table with non 8-bit data")
             if k.ofm.bits == 32:
                 # 256 entries of 32 bit (1 KiB = four 256-byte slots); indexed by the clamped 8-bit intermediate result
